@@ -11,7 +11,8 @@ THEOREMS = {'C01': ['Cctz.C01.breakTime_table', 'Cctz.C01.breakTime_shift', 'Cct
             'C06': ['Cctz.C06.convert_monotone', 'Cctz.C06.convert_def', 'Cctz.C06.convert_monotone_needs_TimesInRange', 'Cctz.C06.convert_monotone_needs_FirstEntryRoom'],
             'C10': ['Cctz.C10.saturate_max', 'Cctz.C10.saturate_max_small', 'Cctz.C10.saturate_min', 'Cctz.C10.saturate_min_small',
                     'Cctz.C10.max_roundtrip', 'Cctz.C10.min_roundtrip', 'Cctz.C10.saturate_max_needs_time_bound'],
-            'C11': [], 'C14': []}
+            'C11': ['Cctz.C11.nextTransition_spec', 'Cctz.C11.prevTransition_spec', 'Cctz.C11.ends', 'Cctz.C11.no_change', 'Cctz.C11.chain', 'Cctz.C11.constants'],
+            'C14': ['Cctz.C14.breakTime_hint_irrelevant', 'Cctz.C14.makeTime_hint_irrelevant', 'Cctz.C14.convert_hint_irrelevant', 'Cctz.C14.history_irrelevant']}
 K400 = Z.K400
 
 
@@ -82,7 +83,7 @@ def load_line(i, zone, mode='loose'):
 
 
 def pick_corpus(chk, scale):
-    return Z.corpus(chk.rng, n_real=46 if scale == 'quick' else None)
+    return Z.corpus(chk.rng, n_real=150 if scale == 'quick' else None)
 
 
 def parse_bt(out):
@@ -148,7 +149,7 @@ def run_C01(chk):
                        'all-year DST, no footer, version 1, fat/slim, sub-minute offsets, big-bang entry, no-op / isdst-only / abbreviation-only transitions); instants: each transition +-k, first/last, '
                        'the last-recorded-year seam, rule instants of generated years, the same + k*400 years up to max(), min(), max(), +-2^59, +-2^31, random; each lookup compared model vs implementation and '
                        'against an independent TZif reader + POSIX-rule evaluator in Python; non-trivial = distinct (zone, instant) pairs that matched the specification') % (
-                        '46 (rotating by seed, a fixed set of edge-case zones always)' if scale == 'quick' else 'all')
+                        '150 (rotating by seed, a fixed set of edge-case zones always)' if scale == 'quick' else 'all')
     for bi in (0, len(blocks) // 2, len(blocks) - 1):
         chk.sample({'zone': zones[bi].name, 'op': blocks[bi][5], 'model': mo[bi][5], 'implementation': io[bi][5]})
     return chk.finish()
@@ -368,6 +369,7 @@ def run_C11(chk):
         qs = sorted(q for q in qs if I64MIN <= q <= I64MAX)
         b = [load_line(i, zn)]
         for q in qs: b += ['nt %s %d' % (zid(i), q), 'pt %s %d' % (zid(i), q)]
+        b += ['ntchain %s' % zid(i), 'ptchain %s' % zid(i)]
         blocks.append(b); meta.append((qs, real))
     mo, io = run_blocks(chk, exe, blocks, 'transitions')
     note_mismatches(chk, blocks, mo, io, 'transitions')
@@ -378,6 +380,14 @@ def run_C11(chk):
             if T is None: return 'none'
             ob = zn.offset_at(T - 1)[0]; oa = zn.offset_at(T)[0]
             return '%s %s' % (C.fmt(C.civil_of_sec(T - 1 + ob + 1)), C.fmt(C.civil_of_sec(T + oa)))
+        # the chains from min() and from max() enumerate the same finite set (count and order-free hash), of the expected size
+        fc, bc = out[-2].split(), out[-1].split()
+        if out[-2] != out[-1] or not fc or fc[0] != str(len(real)):
+            chk.report('%s: the chain of next_transition from min() visits %s changes (hash %s), the chain of prev_transition from max() %s (hash %s); the zone has %d real changes' % (
+                       zn.name, fc[0] if fc else '?', fc[1] if len(fc) > 1 else '?', bc[0] if bc else '?', bc[1] if len(bc) > 1 else '?', len(real)),
+                       {'zone': zn.name, 'tzif_hex': Z.hx(zn.data), 'ops': ['ntchain', 'ptchain'], 'implementation': [out[-2], out[-1]], 'expected_count': len(real)}, sig='%s chain' % zn.name)
+        else:
+            good += 1; chk.count('chains:ok')
         for k, q in enumerate(qs):
             j = bisect.bisect_right(real, q)
             nxt = real[j] if j < len(real) else None
